@@ -456,26 +456,51 @@ def mem_toks(d):
     return flat
 
 
+def grp_match(crit, a, b):
+    """SnapshotGroup::from_snapshot(a, crit).matches(b) on (host, label); paths and tags are equal in these cases"""
+    return (not crit[0] or a[0] == b[0]) and (not crit[1] or a[1] == b[1])
+
+
 def gen_mem(rng):
     """-> (case line, info for the oracle)"""
     ic, ii = rng.choice([(0, 0), (0, 0), (1, 0), (0, 1), (0, 1), (1, 1)])
     skip = 1 if rng.random() < 0.1 else 0
     focus = rng.random() < 0.5
+    with_sel = rng.random() < 0.5
     states = [mem_state0(rng)]
     log = set()
-    if rng.random() < 0.3:
-        s1 = mem_copy(states[0]); mem_edit(rng, s1, set(), False); states.append(s1)
+    for _ in range(rng.choice([0, 0, 1, 2, 3]) if with_sel else rng.choice([0, 0, 0, 1])):
+        s1 = mem_copy(states[-1]); mem_edit(rng, s1, set(), False); states.append(s1)
     cur = mem_copy(states[-1]); mem_edit(rng, cur, log, focus); states.append(cur)
     n = len(states)
     x = rng.random()
-    if n == 2: pidx = [] if x < 0.6 else [0]
-    else: pidx = [] if x < 0.3 else [1] if x < 0.45 else [0] if x < 0.55 else [1, 0] if x < 0.8 else [0, 1]
+    if x < (0.65 if with_sel else 0.5): pidx = []
+    elif x < 0.8 or n == 2: pidx = [rng.randrange(n - 1)]
+    else: pidx = rng.sample(range(n - 1), 2)
     t = [ic, ii, skip, n]
     for st in states: t += mem_toks(st)
     t += [len(pidx)] + pidx
-    used = [states[i] for i in pidx] if pidx else [states[n - 2]]
+    sel_line = None
+    if with_sel:
+        crit = (1, 1, 1, 0) if rng.random() < 0.5 else tuple(rng.choice([0, 1]) for _ in range(4))
+        times = rng.sample(range(1, 60), n)          # distinct; the new snapshot's own time may be OLDER than a parent's
+        attrs = [(rng.choice([1, 2]), rng.choice([1, 1, 2]), times[k]) for k in range(n)]
+        t += list(crit)
+        for a in attrs: t += list(a)
+        me = attrs[n - 1]
+        if pidx: want = list(pidx)
+        else:
+            cands = [k for k in range(n - 1) if grp_match(crit, me, attrs[k])]
+            want = [max(cands, key=lambda k: attrs[k][2])] if cands else []
+        sel_line = " ".join(map(str, [0, len(pidx)] + pidx + list(crit) + [me[0], me[1], n - 1]
+                                + [v for k in range(n - 1) for v in (k, attrs[k][2], attrs[k][0], attrs[k][1])]))
+        if want and attrs[want[0]][2] > me[2] and not pidx: log.add("selected-parent-newer-than-backup-time")
+        if not want: log.add("no-snapshot-in-group")
+    else:
+        want = list(pidx) if pidx else [n - 2]
+    used = [states[i] for i in want]
     return " ".join(map(str, t)), {"ic": ic == 1, "ii": ii == 1, "skip": skip == 1, "used": used, "cur": cur, "log": log,
-                                    "single": len(used) == 1, "focus": focus}
+                                    "single": len(used) == 1, "focus": focus, "want": want, "sel_line": sel_line}
 
 
 def mem_pairs(par, cur):
@@ -525,6 +550,10 @@ def eval_mem(line, info, out):
         mism.append("forced backup did not read every file (files_new %s of %d)" % (d["f_new"], nfiles))
     got = (int(d["unmod"]), int(d["changed"]), int(d["new"]))
     if sum(got) != nfiles: mism.append("summary counters do not add up: " + out[:200])
+    if "sel" in d and d["sel"] != (",".join(map(str, info["want"])) or "-"):
+        mism.append("get_parent selected %s, expected %s (explicit parents, else latest of the same group)" % (d["sel"], info["want"]))
+    if not info["used"] and got != (0, 0, nfiles):
+        mism.append("no parent selected but files unmodified/changed/new = %s" % (got,))
     if info["single"]:
         exp = [0, 0, 0]
         for pe, c in mem_pairs(info["used"][0], info["cur"]):
@@ -745,6 +774,14 @@ def run(ctx):
         for x in m: mem_mism.append((ln, x))
         for k in cls: mem_hist[k] = mem_hist.get(k, 0) + 1
         if "reused_and_reread_mixed" in cls: mem_nontriv.add(ln)
+    # the extracted model of get_parent's selection on the same snapshot lists
+    sel_cases = [(info["sel_line"], out) for (ln, info), out in zip(mem_cases, mem_out) if info.get("sel_line") and out.startswith("ok ")]
+    if model and sel_cases:
+        sel_model = run_lines(model, [c[0] for c in sel_cases], "sel")
+        for (sl, out), mo in zip(sel_cases, sel_model):
+            if parse_kv(out).get("sel") != mo.strip():
+                mem_mism.append((sl, "selection: impl %s | model %s" % (parse_kv(out).get("sel"), mo.strip())))
+    mem_hist["selection_cases_compared_with_model"] = len(sel_cases)
     e2e_viol += mem_viol
     e2e_mism += mem_mism
     e2e_nontriv |= mem_nontriv
